@@ -149,8 +149,10 @@ func zzCheckParse(text string) {
 		file directives.File
 		err  error
 	)
+	var called []directives.Directive
 	panicked, _ := v.Try(func() {
 		p := New(text, "f")
+		p.Callback = func(d directives.Directive) { called = append(called, d) }
 		if err = p.Advance(); err != nil {
 			return
 		}
@@ -175,6 +177,15 @@ func zzCheckParse(text string) {
 		v.Observe("err", true)
 		return
 	}
+	if zzCheckCallback {
+		// (C05) the loader follows includes from this callback: it must see every directive of the tree, once
+		v.Assert(len(called) == len(file.Directives), "callback-once-per-directive")
+		if len(called) == len(file.Directives) {
+			for i := range called {
+				v.Assert(called[i].Start == file.Directives[i].Start && called[i].End == file.Directives[i].End, "callback-gets-the-directive")
+			}
+		}
+	}
 	w := &zzWalker{text: text, n: n}
 	fr := file.Range
 	v.Assert(fr.Start == 0 && fr.End == n, "file-range-is-whole-text")
@@ -193,6 +204,36 @@ func zzCheckParse(text string) {
 	}
 	v.Observe("err", false)
 	v.Observe("ndirectives", len(file.Directives))
+}
+
+var zzCheckCallback bool
+
+var zzIncludeTemplates = []string{
+	0: "include \"a.knut\"\x00",
+	1: "include \"a.knut\"\n\x00include \"b/c.knut\"",
+	2: "2021-01-01 open A\ninclude \"../x.knut\"\x00\n2021-01-02 open B\n",
+	3: "\x00include \"a\"\n",
+}
+
+// VerifParserCallback: C05 kernel for include trees. The recursive loader learns
+// about include directives only through the parser's Callback; for every text the
+// parser accepts, the callback must be invoked exactly once per directive
+// (wherever the include stands: first line, last line without newline, between
+// other directives).
+func VerifParserCallback() {
+	zzCheckCallback = true
+	t := zzIncludeTemplates[v.Param("tmpl")]
+	hole := v.Bytes("h", v.Param("k"))
+	out := ""
+	for i := 0; i < len(t); i++ {
+		if t[i] == 0 {
+			out += hole
+		} else {
+			out += t[i : i+1]
+		}
+	}
+	zzCheckParse(out)
+	zzCheckCallback = false
 }
 
 // VerifParseBytes: every byte of the input symbolic; length n.
